@@ -42,6 +42,13 @@ func main() {
 			ref = os.Args[4]
 		}
 		drive.RaceWork(seed, rounds, ref)
+	case "probe":
+		// one risky input in this process; C11 judges how the process ends
+		arg := 0
+		if len(os.Args) > 3 {
+			fmt.Sscan(os.Args[3], &arg)
+			drive.Probe(os.Args[2], arg)
+		}
 	case "concref":
 		// one instance of the C14 catalogue alone in this fresh process
 		var seed int64 = 1
